@@ -66,6 +66,11 @@ def run(ctx):
            'the placed element is the one that was peeked')
   ctx.rule('R3.3', 'fee phase: non-coinbase leftovers continue at self.reward + offset - output_value and self.reward grows by total_input_value - output_value; '
            'coinbase leftovers are lost at (null outpoint, self.lost_sats + offset - output_value) and self.lost_sats grows by self.reward - output_value')
+  ctx.rule('R3.4', 'calculate_sat: the sat of a new inscription is start + input_offset - (sum of the earlier range lengths) of the first range with sum + size > input_offset; the running sum grows by end - start per range')
+  ctx.rule('R3.5', 'update_inscription_location: Burned is set exactly under op_return (new and carried inscriptions), Lost exactly when the new outpoint is the null outpoint, Unbound exactly under the unbound flag; '
+           'an unbound inscription is stored at (unbound outpoint, running unbound counter) and the counter grows by one; every other inscription at the satpoint it was given')
+  _r3_4(ctx, F)
+  _r3_5(ctx, F)
   b = ctx.body('R3.1', II)
   if b is None:
     return
@@ -331,6 +336,128 @@ def run(ctx):
   ctx.ob('R3.3', b.n, 'the coinbase takes over self.flotsam before sorting', len(ap) == 1 and all(b.dominates(ap[0].bb, c.bb) or not b.reaches(c.bb, ap[0].bb) for c in srt) and any(b.reaches(ap[0].bb, c.bb) for c in srt), '', where(b, ap[0].line if ap else b.line))
 
 
+CS = 'ord::index::updater::inscription_updater::InscriptionUpdater::calculate_sat'
+UL = 'ord::index::updater::inscription_updater::InscriptionUpdater::update_inscription_location'
+
+
+def _r3_4(ctx, F):
+  b = ctx.body('R3.4', CS)
+  if b is None:
+    return
+  an = Analysis(b, adts=F.adts)
+  loads = [c for c in b.calls if c.is_('re:<\\(u64, u64\\) as ord::index::entry::Entry>::load$')]
+  if not ctx.anchor('R3.4', 'SatRange::load', len(loads) == 1, b.n):
+    return
+  lc = loads[0]
+  h = smallest_loop(an, lc.bb)
+  if not ctx.anchor('R3.4', 'range loop', h is not None, b.n):
+    return
+  L = ('call', lc.bb)
+  start, end = Aff.sym(('f', L, (_f(0),))), Aff.sym(('f', L, (_f(1),)))
+  ks = set()
+  for s in back_edge_states(an, h):
+    for k, v in s.m.items():
+      if v == Aff.sym(('phi', h, k)) + end - start:
+        ks.add(k)
+  if not ctx.anchor('R3.4', 'running offset (offset += size)', len(ks) == 1, b.n):
+    return
+  K = next(iter(ks))
+  off = Aff.sym(('phi', h, K))
+  bes = back_edge_states(an, h)
+  ctx.ob('R3.4', b.n, 'every skipped range adds exactly end - start to the running offset', bool(bes) and all(s.val(K) == off + end - start for s in bes), f'{[s.val(K) for s in bes][:2]}', where(b, lc.line))
+  ees = entry_edge_states(an, h)
+  ctx.ob('R3.4', b.n, 'the running offset starts at 0', bool(ees) and all(s.val(K) == Aff.const(0) for s in ees), f'{[s.val(K) for s in ees][:2]}', where(b, lc.line))
+  sats = [x for x in agg_sites(b, r'ordinals::sat::Sat$') if b.dominates(lc.bb, x[0])]
+  if not ctx.anchor('R3.4', 'Sat(n) returned from the loop', len(sats) == 1, b.n):
+    return
+  bb, i, stm = sats[0]
+  dk = pkey(stm['p'])
+  io = [l for l in range(1, b.argc + 1) if b.local_name(l) == 'input_offset']
+  sts = state_after_stmt(an, bb, i)
+  ok = bool(sts) and bool(io)
+  msg = ''
+  for s in sts:
+    n = s.val(_sub(dk, _f(0)))
+    X = Aff.sym(('init', (io[0], ()))) if io else None
+    if X is None or n != start + X - off:
+      ok = False
+      msg = f'n = {n}'
+    elif not implies_le(s.guards, X + Aff.const(1), off + end - start):
+      ok = False
+      msg = f'offset + size > input_offset not established: {s.guards}'
+  ctx.ob('R3.4', b.n, 'hit: n == start + input_offset - running offset, under running offset + size > input_offset', ok, msg, where(b, stm['l']))
+
+
+def _r3_5(ctx, F):
+  from .C06 import CHARM_GUARD, charm_sites
+  b = ctx.body('R3.5', UL)
+  if b is None:
+    return
+  sites = charm_sites(b)
+  ctx.sites(len(sites))
+  for name, n_expected in (('Burned', 2), ('Lost', 1), ('Unbound', 1)):
+    ss = [x for x in sites if x[1] == name]
+    if not ctx.anchor('R3.5', f'Charm::{name}.set site(s)', len(ss) == n_expected, b.n):
+      continue
+    for c, v, gs in ss:
+      ctx.ob('R3.5', b.n, f'Charm::{name} is set under `{CHARM_GUARD[name]}` and nothing else', gs == {(CHARM_GUARD[name], True)}, f'{sorted(gs)}', where(b, c.line))
+  # the carried (Origin::Old) Burned site rewrites the stored entry with that charm
+  an = Analysis(b, adts=F.adts)
+  sps = [x for x in agg_sites(b, SATPOINT)]
+  unb = [x for x in sps if any(o.kind == 'call' and o.call.is_('re:unbound_outpoint$') for o in deep_origins(b, x[2]['rv']['ops'][_field(x[2], 'outpoint')], all_args=True))]
+  if ctx.anchor('R3.5', 'SatPoint literal of an unbound inscription', len(unb) == 1, b.n):
+    bb, i, stm = unb[0]
+    dk = pkey(stm['p'])
+    sts = state_after_stmt(an, bb, i)
+    offs = {s.val(_sub(dk, _f(_field(stm, 'offset')))) for s in sts}
+    okn = bool(offs) and all('unbound_inscriptions' in an.field_names(v) for v in offs)
+    ctx.ob('R3.5', b.n, 'unbound: offset is the running self.unbound_inscriptions counter', okn, f'{offs}', where(b, stm['l']))
+    asg = [(bi, si, st_) for bi in b.reachable_from(0) if not b.blocks[bi].get('cleanup') for si, st_ in enumerate(b.blocks[bi]['s'])
+           if st_.get('p') and (st_['p'].get('p') or []) and isinstance(st_['p']['p'][-1], dict) and st_['p']['p'][-1].get('n') == 'unbound_inscriptions']
+    oki = False
+    if len(asg) == 1:
+      bi, si, st_ = asg[0]
+      before = state_after_stmt(an, bi, si - 1) if si > 0 else an.ins.get(bi, [])
+      after = state_after_stmt(an, bi, si)
+      k = pkey(st_['p'])
+      oki = bool(after) and len(before) == len(after) and all(s1.val(k) - s0.val(k) == Aff.const(1) for s0, s1 in zip(before, after)) and b.dominates(bb, bi)
+    ctx.ob('R3.5', b.n, 'unbound: the counter grows by exactly one after it was used', oki, f'{len(asg)} assignments', where(b, stm['l']))
+    from ..guards import all_guards, expand
+    from ..intervals import fmt_desc
+    gl = [g for g in expand(b, all_guards(b, bb)) if not fmt_desc(g.atom).startswith('discr(')]
+    okg = len(gl) == 1 and gl[0].pol is True
+    src = set()
+    if okg:
+      t = b.blocks[gl[0].bb]['t']
+      for o in origins(b, t['d']):
+        if o.kind == 'agg' and o.agg.get('ak') == 'tuple' and o.agg.get('ops'):
+          for x in origins(b, o.agg['ops'][0]):
+            src.add('false' if x.kind == 'const' and x.const.get('v') in (False, 0) else (x.name + '.' + '.'.join(map(str, x.fields)) if x.kind == 'param' else x.kind))
+        elif o.kind == 'const':
+          src.add('false' if o.const.get('v') in (False, 0) else 'const')
+        elif o.kind == 'param':
+          src.add(o.name + '.' + '.'.join(map(str, o.fields)))
+        else:
+          src.add(o.kind)
+    ctx.ob('R3.5', b.n, 'the unbound location is used exactly when the inscription is unbound (flag of Origin::New; never for a carried inscription)', okg and src == {'false', 'flotsam.origin.unbound'}, f'{sorted(src)}', where(b, stm['l']))
+  # what is pushed into the UTXO entry is (sequence_number, satpoint.offset) of the chosen satpoint
+  pi = [c for c in b.calls if c.is_('ord::index::utxo_entry::UtxoEntryBuf::push_inscription')]
+  if ctx.anchor('R3.5', 'push_inscription', len(pi) == 1, b.n):
+    c = pi[0]
+    oo = origins(b, c.args[2])
+    kinds = set()
+    for o in oo:
+      if o.kind == 'param' and o.name == 'new_satpoint' and tuple(o.fields)[-1:] == ('offset',):
+        kinds.add('given')
+      elif o.kind == 'agg' and unb and o.agg is unb[0][2]['rv']:
+        kinds.add('unbound')
+      elif o.kind == 'param' and o.name == 'self' and 'unbound_inscriptions' in o.fields:
+        kinds.add('unbound')
+      else:
+        kinds.add(repr(o))
+    ctx.ob('R3.5', b.n, 'the stored offset is new_satpoint.offset, or the unbound counter for an unbound inscription', kinds == {'given', 'unbound'}, f'{sorted(kinds)}', where(b, c.line))
+
+
 def _before_in_iteration(b, an, h, x, y):
   """within one iteration of loop h, block y is never followed by block x (x can only be reached again through the head)"""
   return not reaches_avoiding(b, y, x, {h})
@@ -375,10 +502,16 @@ MUTANTS = [
   {'name': 'fee-spent inscriptions re-based without the reward collected so far', 'file': _IU, 'old': '        offset: self.reward + flotsam.offset - output_value,', 'new': '        offset: flotsam.offset - output_value,', 'expect': ('R3.3', 'closure', 'carried offset')},
   {'name': 'reward grows by the whole input value', 'file': _IU, 'old': '      self.reward += total_input_value - output_value;', 'new': '      self.reward += total_input_value;', 'expect': ('R3.3', 'index_inscriptions', "self.reward'")},
   {'name': 'lost inscriptions located without the lost sats so far', 'file': _IU, 'old': '          offset: self.lost_sats + flotsam.offset - output_value,', 'new': '          offset: flotsam.offset - output_value,', 'expect': ('R3.3', 'index_inscriptions', 'lost offset')},
+  {'name': 'calculate_sat: hit one range late', 'file': _IU, 'old': '      if offset + size > input_offset {', 'new': '      if offset + size >= input_offset {', 'expect': ('R3.4', 'calculate_sat', 'hit')},
+  {'name': 'calculate_sat: sat measured from the range end', 'file': _IU, 'old': '        let n = start + input_offset - offset;', 'new': '        let n = end + input_offset - offset;', 'expect': ('R3.4', 'calculate_sat', 'hit')},
+  {'name': 'Burned only for inscriptions that are not cursed', 'file': _IU, 'old': '        if op_return {\n          Charm::Burned.set(&mut charms);\n        }\n\n        if new_satpoint', 'new': '        if op_return && !cursed {\n          Charm::Burned.set(&mut charms);\n        }\n\n        if new_satpoint', 'expect': ('R3.5', 'update_inscription_location', 'Charm::Burned')},
+  {'name': 'unbound counter not advanced', 'file': _IU, 'old': '      self.unbound_inscriptions += 1;\n', 'new': '', 'expect': ('R3.5', 'update_inscription_location', 'counter grows')},
 ]
 
 # behaviour-preserving pack (thorough tier)
 NEUTRAL = [
+  {'name': 'calculate_sat: hit test commuted', 'file': _IU, 'old': '      if offset + size > input_offset {', 'new': '      if input_offset < size + offset {'},
+  {'name': 'Lost test commuted', 'file': _IU, 'old': '        if new_satpoint.outpoint == OutPoint::null() {\n          Charm::Lost', 'new': '        if OutPoint::null() == new_satpoint.outpoint {\n          Charm::Lost'},
   {'name': 'carried offset sum commuted', 'file': _IU, 'old': '        let offset = total_input_value + old_satpoint_offset;', 'new': '        let offset = old_satpoint_offset + total_input_value;'},
   {'name': 'break test commuted', 'file': _IU, 'old': '        if flotsam.offset >= end {', 'new': '        if end <= flotsam.offset {'},
   {'name': 'running input value spelled out', 'file': _IU, 'old': '      total_input_value += input_value;', 'new': '      total_input_value = input_value + total_input_value;'},
